@@ -317,6 +317,9 @@ def declare(reg):
             "E1-prefix": "forall(lambda L: implies(asc(L) and elems(L) == self.mailbox.g_keys, len(L) >= len(self.msg_keys) and "
                          "forall(lambda j: implies(0 <= j and j < len(self.msg_keys), L[j] == self.msg_keys[j]))), 'list[int]')",
             "E1-count": "card(self.mailbox.g_keys - elems(self.msg_keys)) == card(self.mailbox.g_keys) - len(self.msg_keys)",
+            # weaker than the class invariant's seq-keys-exist: APPEND/COPY have already listed the message they just
+            # added to the folder in the in-memory sequences when they call us
+            "seq-keys-on-disk": "forall(lambda s, k: implies(s in self.sequences and k in get(self.sequences, s), k in self.mailbox.g_keys), 'str', 'int')",
         },
         ensures={
             # C02
@@ -327,12 +330,17 @@ def declare(reg):
             "uid-vv": "self.uid_vv == old(self.uid_vv)",
             # C13
             "changed-iff-new": "result == (len(self.msg_keys) > len(old(self.msg_keys)))",
+            # a forced resync of a selectable mailbox finds every file that is not yet in the list
+            "forced-scan-finds-new": "implies(not optional and '\\\\Noselect' not in old(self.attributes) and "
+                                     "exists(lambda k: k in old(self.mailbox.g_keys) and k not in old(self.msg_keys)), result)",
             "sees-all-files": "implies(result, elems(self.msg_keys) == self.mailbox.g_keys)",
             "old-flags-kept": "forall(lambda s, k: implies(k in old(self.msg_keys), mem(self.sequences, s, k) == mem(old(self.sequences), s, k)), 'str', 'int')",
             "new-recent": "forall(lambda k: implies(k in self.msg_keys and k not in old(self.msg_keys), mem(self.sequences, 'Recent', k)))",
             "new-seen-iff-not-unseen": "forall(lambda k: implies(k in self.msg_keys and k not in old(self.msg_keys), mem(self.sequences, 'Seen', k) == (not mem(old(self.mailbox.g_seqs), 'unseen', k))))",
             "new-other-flags-from-agent": "forall(lambda s, k: implies(k in self.msg_keys and k not in old(self.msg_keys) and s != 'Recent' and s != 'Seen', mem(self.sequences, s, k) == mem(old(self.mailbox.g_seqs), s, k)), 'str', 'int')",
             "disk-seqs-written": "implies(result, forall(lambda s, k: mem(self.mailbox.g_seqs, s, k) == mem(self.sequences, s, k), 'str', 'int'))",
+            "seq-keys-exist-after": "implies(result or old(forall(lambda s, k: implies(s in self.sequences and k in get(self.sequences, s), k in self.msg_keys), 'str', 'int')), "
+                                    "forall(lambda s, k: implies(s in self.sequences and k in get(self.sequences, s), k in self.msg_keys), 'str', 'int'))",
         },
         keeps_invariant=True,
         modifies=["self.last_resync", "self.mtime", "self.optional_resync", "self.msg_keys", "self.uids", "self.num_msgs", "self.num_recent",
@@ -359,7 +367,7 @@ def declare(reg):
         },
         locals_={"new_msgs": "dict[int,opaque:EmailMessage]", "notifications": "list[str]", "msg_sequences": "set[str]", "msg_seqs": "defaultdict[str,set[int]]"},
         props=["C02", "C13", "C01"],
-        ghost={"harness": "harness.mboxops:Resync", "call_asserts": {"push": {
+        ghost={"harness": "harness.mboxops:Resync", "inv_except": ["seq-keys-exist"], "call_asserts": {"push": {
             # C01: the new message count is announced directly only to a session with nothing queued (or idling);
             # otherwise it is queued *behind* the pending EXPUNGEs (the count already has them applied)
             "exists-not-ahead-of-queued-expunges": "len(c.pending_notifications) == 0 or c.idling",
@@ -471,4 +479,56 @@ def declare(reg):
         keeps_invariant=True,
         modifies=["self.msg_keys", "self.sequences", "self._msg_key_to_idx", "self._uid_to_idx", "self.mtime", "MH.g_keys", "MH.g_content", "MH.g_seqs", "self.g_db_exists", "self.g_db_uid_vv", "self.g_db_next_uid", "self.g_db_uids", "self.g_db_msg_keys", "self.g_db_subscribed", "self.g_db_num_msgs"],
         props=["C03"],
+    )
+
+    # ---- append (C05 c, C02 d, C04 d) ------------------------------------------------------------------------------
+    reg.contract("<stdlib>", "MH.add", params={"self": "ref:MH", "message": "opaque:EmailMessage"}, ret="int",
+                 ensures={"fresh-largest": "result >= 1 and result not in old(self.g_keys) and forall(lambda k: implies(k in old(self.g_keys), k < result))",
+                          "added": "self.g_keys == old(self.g_keys) | {result}", "count": "card(self.g_keys) == card(old(self.g_keys)) + 1",
+                          "seqs-kept": "same(self.g_seqs, old(self.g_seqs))"},
+                 modifies=["self.g_keys", "self.g_content"], trusted=True, note="A-MH: mailbox.MH.add stores the message under max(existing)+1")
+    reg.contract(P, "mbox_msg_path", params={"mbox": "ref:MH", "x": "int"}, ret="opaque:Path", trusted=True, note="path of a message file")
+    reg.contract("<aiofiles>", "utime", params={"path": "opaque:Path", "times": "tuple[float,float]"}, trusted=True, yields=True, note="A-OS: sets the file's mtime (internal date)")
+    reg.contract("<datetime>", "datetime.timestamp", params={"self": "opaque:datetime"}, ret="float", trusted=True, note="stdlib")
+    NEWK = "local('msg_key')"
+    reg.contract(
+        P, "Mailbox.append", uses_invariant=True,
+        params={"self": "ref:Mailbox", "msg": "opaque:EmailMessage", "flags": "opt[list[str]]", "date_time": "opt[opaque:datetime]"}, ret="int",
+        requires={
+            "E1-superset": "subset(elems(self.msg_keys), self.mailbox.g_keys)",
+            "E1-larger": "forall(lambda k: implies(k in self.mailbox.g_keys and k not in self.msg_keys, forall(lambda j: implies(0 <= j and j < len(self.msg_keys), self.msg_keys[j] < k))))",
+            "selectable": "'\\\\Noselect' not in self.attributes",
+            "disk-seqs-current": "forall(lambda s, k: mem(self.mailbox.g_seqs, s, k) == mem(self.sequences, s, k), 'str', 'int')",
+        },
+        ensures={
+            # C05 (c) / C02 (d): exactly the message we stored is in the mailbox now, and the UID we report is the one paired with it
+            "added-message-present": f"{NEWK} in self.msg_keys and {NEWK} not in old(self.msg_keys)",
+            "appenduid-is-its-uid": f"result == uid_at(self, {NEWK})",
+            "uid-is-fresh": "result >= old(self.next_uid) and result < self.next_uid",
+            "nothing-removed": "forall(lambda k: implies(k in old(self.msg_keys), k in self.msg_keys and uid_of_key(self, k) == old(uid_of_key(self, k))))",
+            # C04 (d): \\Recent plus exactly the given flags; \\Seen absent => unseen
+            # (outside known finding F05: a keyword atom equal to a reserved sequence name such as `unseen` aliases a system flag)
+            "initial-flags": f"mem(self.sequences, 'Recent', {NEWK}) and implies(is_none(flags) or forall(lambda i: implies(0 <= i and i < len(some(flags)), not reserved_seq(some(flags)[i]))), "
+                             f"forall(lambda j: implies((not is_none(flags)) and 0 <= j and j < len(some(flags)) and seq_of_flag(some(flags)[j]) != 'Seen' and seq_of_flag(some(flags)[j]) != 'Recent', "
+                             f"mem(self.sequences, seq_of_flag(some(flags)[j]), {NEWK}))))",
+        },
+        raises={"Bad": None},
+        keeps_invariant=True,
+        modifies=["self.last_resync", "self.mtime", "self.optional_resync", "self.msg_keys", "self.uids", "self.num_msgs", "self.num_recent", "self.sequences", "self.next_uid",
+                  "self._msg_key_to_idx", "self._uid_to_idx", "self.attributes", "MH.g_seqs", "MH.g_keys", "MH.g_content", "*.pending_notifications", "ClientProxy.g_out",
+                  "self.g_db_exists", "self.g_db_uid_vv", "self.g_db_next_uid", "self.g_db_uids", "self.g_db_msg_keys", "self.g_db_subscribed", "self.g_db_num_msgs"],
+        loops={0: {"invariant": {
+            "flags-so-far": "forall(lambda j: implies(0 <= j and j < _i, mem(self.sequences, seqs[j], msg_key))) and mem(self.sequences, 'Recent', msg_key)",
+            "others-kept": "forall(lambda s, k: implies(k != msg_key, mem(self.sequences, s, k) == mem(lpre(self.sequences), s, k)), 'str', 'int')",
+        }}},
+        ghost={"assume_pre_of": {"check_new_msgs_and_flags": ["E1-prefix", "E1-count"]},
+               # rely at every await (E1): a delivery agent may add message files with numbers above every existing one,
+               # and list them in sequences of its own; nothing else in the folder changes
+               "rely": {"havoc": ["MH.g_keys", "MH.g_seqs", "MH.g_content"], "assume": [
+                   "forall(lambda r: subset(old(r.g_keys), r.g_keys), 'ref:MH')",
+                   "forall(lambda r, k: implies(k in r.g_keys and k not in old(r.g_keys), forall(lambda j: implies(j in old(r.g_keys), j < k))), 'ref:MH', 'int')",
+                   "forall(lambda r, s, k: implies(k in old(r.g_keys), mem(r.g_seqs, s, k) == mem(old(r.g_seqs), s, k)), 'ref:MH', 'str', 'int')",
+               ]}},
+        is_async=True,
+        props=["C05", "C02", "C04"],
     )
